@@ -128,7 +128,7 @@ static pthread_cond_t cnd = PTHREAD_COND_INITIALIZER;
 static int turn = -1;		/* -1 kernel, else instance index */
 
 static long long vt_us = 0;	/* virtual time in microseconds */
-static int residue_mode = 0;	/* 0 leave, 1 zeros, 2 0xA5, 3 blob then 0x5A, 4 tail of the previous datagram then 0x5A */
+static int residue_mode = 0;	/* 0 leave, 1 zeros, 2 0xA5, 3 blob then 0x5A, 4 tail of the previous datagram then 0x5A, 5 blob repeated */
 static unsigned char *residue_blob;
 static int residue_len;
 static int system_rc = 0;
@@ -532,6 +532,13 @@ static void paint(struct vfd *v, unsigned char *buf, size_t got, size_t cap)
 		if (rest > n)
 			memset(buf + got + n, 0x5A, rest - n);
 		break;
+	case 5:
+		/* the blob repeated from the end of the datagram on: small numbers a decoder would find meaningful
+		   (a preference, a length, a pointer) wherever it reads past the end */
+		if (residue_len > 0)
+			for (n = 0; n < rest; n++)
+				buf[got + n] = residue_blob[n % (size_t) residue_len];
+		break;
 	}
 }
 
@@ -801,7 +808,6 @@ static void dump_users(void)
 			if (u->q.id) dg = fnv(u->q.name, strnlen(u->q.name, 256), dg);
 			dg = fnv(&u->q_sendrealsoon.id, 2, dg);
 			dg = fnv(&u->q_sendrealsoon.id2, 2, dg);
-			dg = fnv(&u->q_sendrealsoon_new, 4, dg);
 			dg = fnv(&u->inpacket.len, 12, dg);
 			if (u->inpacket.len > 0 && u->inpacket.len <= (int) sizeof(u->inpacket.data))
 				dg = fnv(u->inpacket.data, u->inpacket.len, dg);
@@ -841,8 +847,8 @@ static void dump_users(void)
 			u->q.id, u->q.id2, u->q.type, qip, ntohs(qf->sin_port));
 		if (u->active && u->q.id)
 			emithex((unsigned char *) u->q.name, strnlen(u->q.name, 256));
-		fprintf(out, "\",\"qrs\":%d,\"qrs2\":%d,\"qrsnew\":%d,\"qrsname\":\"",
-			u->q_sendrealsoon.id, u->q_sendrealsoon.id2, u->q_sendrealsoon_new);
+		fprintf(out, "\",\"qrs\":%d,\"qrs2\":%d,\"qrsname\":\"",
+			u->q_sendrealsoon.id, u->q_sendrealsoon.id2);
 		if (u->active && u->q_sendrealsoon.id)
 			emithex((unsigned char *) u->q_sendrealsoon.name, strnlen(u->q_sendrealsoon.name, 256));
 		fprintf(out, "\",\"in\":[%d,%d,%d,%d],\"out\":[%d,%d,%d,%d,%d],\"resent\":%d,",
